@@ -61,6 +61,7 @@ pub struct MqttShared {
     encode_error: Cell<Option<EncodeError>>,
     streaming_waiter: Cell<Option<pool::Sender<()>>>,
     streaming_remaining: Cell<Option<num::NonZeroU32>>,
+    closed: Cell<bool>,
     on_publish_ack: Cell<Option<Box<dyn Fn(num::NonZeroU16, bool)>>>,
     pub(super) payload: Cell<Option<PlSender>>,
     pub(super) codec: codec::Codec,
@@ -105,6 +106,7 @@ impl MqttShared {
             encode_error: Cell::new(None),
             streaming_waiter: Cell::new(None),
             streaming_remaining: Cell::new(None),
+            closed: Cell::new(false),
             on_publish_ack: Cell::new(None),
             payload: Cell::new(None),
         }
@@ -148,6 +150,14 @@ impl MqttShared {
 
     pub(super) fn is_closed(&self) -> bool {
         self.io.is_closed()
+    }
+
+    /// Connection is closed or is being closed.
+    ///
+    /// Nothing can be sent after close is initiated, io drops writes
+    /// while it completes graceful shutdown.
+    pub(super) fn is_sink_closed(&self) -> bool {
+        self.closed.get() || self.io.is_closed()
     }
 
     pub(super) fn is_ready(&self) -> bool {
@@ -252,6 +262,7 @@ impl MqttShared {
     }
 
     fn clear_queues(&self) {
+        self.closed.set(true);
         let mut queues = self.queues.borrow_mut();
         queues.waiters.clear();
         queues.received = 0;
@@ -303,7 +314,7 @@ impl MqttShared {
     }
 
     pub(super) async fn want_payload_stream(&self) -> Result<(), SendPacketError> {
-        if self.is_closed() {
+        if self.is_sink_closed() {
             Err(SendPacketError::Disconnected)
         } else if self.flags.get().contains(Flags::WRB_ENABLED) {
             let (tx, rx) = self.pool.waiters.channel();
@@ -527,7 +538,7 @@ impl MqttShared {
         &self,
         id: num::NonZeroU16,
     ) -> Result<pool::Receiver<Ack>, SendPacketError> {
-        if self.is_closed() {
+        if self.is_sink_closed() {
             return Err(SendPacketError::Disconnected);
         }
         let mut queues = self.queues.borrow_mut();
@@ -582,7 +593,7 @@ impl Future for Waiter {
                     return Poll::Ready(Err(SendPacketError::Disconnected));
                 }
                 Poll::Ready(Ok(())) => {
-                    if self.shared.is_closed() {
+                    if self.shared.is_sink_closed() {
                         self.rx = None;
                         return Poll::Ready(Err(SendPacketError::Disconnected));
                     }
